@@ -19,6 +19,10 @@ Definition mode_valid (m : str) : bool :=
     forallb (fun c => inb c mode_chars) m
     && inb c0 [ch_r; ch_w; ch_x; ch_a]
     && negb (has_char ch_t m && has_char ch_b m)
+    (* exactly one of r/w/x/a; '+', 'b', 't' at most once - as io.open requires (/repo af07be9; before, 'rw' or
+       'rbb' were accepted here and refused with a raw ValueError inside OSFS only) *)
+    && Nat.eqb (count_c ch_r m + count_c ch_w m + count_c ch_x m + count_c ch_a m) 1
+    && Nat.leb (count_c ch_plus m) 1 && Nat.leb (count_c ch_b m) 1 && Nat.leb (count_c ch_t m) 1
   end.
 (* Mode.validate_bin *)
 Definition mode_valid_bin (m : str) : bool := mode_valid m && negb (has_char ch_t m).
